@@ -87,7 +87,7 @@ func c16Record(n int64) {
 	cov.NonTrivial("c16", b[:])
 }
 
-const c16Rule = "C16: every integer of a contiguous range around zero, the boundaries of int8..int64 (\u00b12), and rapid Int64 draws, each through Language(N).String() against the declared identifier / \"Language(N)\"; non-trivial = a distinct N other than the ten values the suite's table lists (0..8 and 10000)"
+const c16Rule = "C16: every integer of a contiguous range around zero, the boundaries of int8..int64 (\u00b12), values whose product with a small odd record size wraps back into a small range, and rapid Int64 draws, each through Language(N).String() against the declared identifier / \"Language(N)\"; non-trivial = a distinct N other than the ten values the suite's table lists (0..8 and 10000)"
 
 func TestC16_Range(t *testing.T) {
 	cov.Rule(c16Rule)
@@ -122,6 +122,24 @@ func TestC16_Range(t *testing.T) {
 		}
 	}
 	cov.Exhaustive("every Language value in [-" + strconv.FormatInt(lim, 10) + ", " + strconv.FormatInt(lim, 10) + "]")
+	// scaled-offset wrap: values N for which N*m (m a small odd record size) wraps around 2^64 back
+	// into a small range: N = q + r*inverse(m) mod 2^64
+	if cfg.Shard == 0 {
+		for m := uint64(3); m < 256; m += 2 {
+			inv := m // Newton iteration for the inverse of m modulo 2^64
+			for i := 0; i < 6; i++ {
+				inv *= 2 - m*inv
+			}
+			for r := uint64(1); r < m && r <= 24; r++ {
+				for q := uint64(0); q < 12; q++ {
+					n := int64(q + r*inv)
+					c16Record(n)
+					cov.Class("multiplicative-wrap")
+					judge(t, "c16.string", c16Check, &c16Case{N: n})
+				}
+			}
+		}
+	}
 	cov.Sample("c16.string", c16Case{N: 9})
 	cov.Sample("c16.string", c16Case{N: -1})
 	if cfg.Shard == 0 {
